@@ -73,11 +73,11 @@ def requirements(tier):
     q = tier == 'quick'
     return {'loads': 80000 if q else 1000000,
             'tag_injected_loads': 80000 if q else 1000000,
-            'init_events_matched': 6000 if q else 75000,
-            'init_multisets_equal': 5000 if q else 60000,
-            'any_positions_walked': 8000 if q else 100000,
-            'decorated_pairs_compared': 9000 if q else 110000,
-            'decorated_both_ok': 8000 if q else 100000,
+            'init_events_matched': 5000 if q else 60000,
+            'init_multisets_equal': 4000 if q else 50000,
+            'any_positions_walked': 6000 if q else 75000,
+            'decorated_pairs_compared': 6000 if q else 75000,
+            'decorated_both_ok': 5500 if q else 65000,
             'python_tag_documents': 18000 if q else 220000,
             'audit_events_seen': 1,
             'audit_selftest': 16}
@@ -477,6 +477,8 @@ def selftest(ctx):
 def shard(ctx):
     rng = ctx.rng
     install()
+    from vlib import repotests
+    repotests.run(ctx, 'C04', ['strip-tags-post'])
     if ctx.shard % 2 == 0:
         import verif_canary_mod     # noqa  (pre-imported variant)
         del canary_log()[:]
